@@ -2,3 +2,4 @@ import RoGen.Catalogue
 import RoGen.Plugins
 import RoGen.SubjectLocks
 import RoGen.RateLimit
+import RoGen.ChanShape
